@@ -634,25 +634,25 @@ def factoryRefs (t : Ty) : List TRef :=
   | .user q => [.swWrap q]
   | _ => []
 
-def swObjcStructDecls (api : Api) (ns : String) (s : StructT) : Except String (List Decl) := do
+/-- ObjcTypes.jinja line 33-35 evaluates `field.data_type.data_type` for a `Map` field whose value type is a struct
+with enumerated subtypes: jinja2 `UndefinedError` (design note D18) -/
+def d18Field (api : Api) (f : Field) : Bool :=
+  match f.ty with
+  | .map _ (.user q) => tyHasSubtypes api (.user q)
+  | _ => false
+
+def swObjcStructDecls (api : Api) (ns : String) (s : StructT) : List Decl :=
   let q : QName := ⟨ns, s.name⟩
   let C := (TRef.swWrap q).text
   let af := structAllFields api ns s
-  -- ObjcTypes.jinja line 33-35: `field.data_type.data_type` of a Map field (D18)
-  for f in s.fields do
-    if tyHasSubtypes api f.ty && !(f.ty.unwrap.1.isUser) && (f.ty.unwrap.1.isMap) then
-      match f.ty.unwrap.1 with
-      | .map _ (.user _) => throw s!"UndefinedError: 'Map object' has no attribute 'data_type' (field {f.name} of {ns}.{s.name})"
-      | _ => pure ()
   let parentRefs := match s.parent with
     | none => []
     | some p => (swObjcType (.user p)).refs
   let initRefs := if s.fields.isEmpty then [] else fieldRefs (swObjcType ·) af
   let subs := if s.hasSubtypes then (allSubtypes api s).flatMap fun q => [TRef.swType q, TRef.swWrap q] else []
-  pure <|
-    { unit := "", kind := "class", scope := [], name := C,
-      refs := [TRef.swType q] ++ parentRefs ++ fieldRefs (swObjcType ·) s.fields ++ initRefs ++ subs } ::
-    s.fields.map fun f => { unit := "", kind := "var", scope := [C], name := swVar f.name, refs := (swObjcType f.ty).refs }
+  { unit := "", kind := "class", scope := [], name := C,
+    refs := [TRef.swType q] ++ parentRefs ++ fieldRefs (swObjcType ·) s.fields ++ initRefs ++ subs } ::
+  s.fields.map fun f => { unit := "", kind := "var", scope := [C], name := swVar f.name, refs := (swObjcType f.ty).refs }
 
 def swObjcUnionDecls (api : Api) (ns : String) (u : UnionT) : List Decl :=
   let q : QName := ⟨ns, u.name⟩
@@ -669,14 +669,10 @@ def swObjcUnionDecls (api : Api) (ns : String) (u : UnionT) : List Decl :=
     (if tagType.render == "" then [] else
       [{ unit := "", kind := "var", scope := [TC], name := swVar f.name, refs := tagType.refs }])
 
-def swiftTypesObjcDecls (api : Api) : Except String (List Decl) := do
-  let mut out := []
-  for ns in api.nss do
-    for t in ns.types do
-      match t with
-      | .struct s => out := out ++ (← swObjcStructDecls api ns.name s)
-      | .union u => out := out ++ swObjcUnionDecls api ns.name u
-  pure out
+def swiftTypesObjcDecls (api : Api) : List Decl :=
+  api.nss.flatMap fun ns => ns.types.flatMap fun t => match t with
+    | .struct s => swObjcStructDecls api ns.name s
+    | .union u => swObjcUnionDecls api ns.name u
 
 /-! ### swift_client -/
 
@@ -691,12 +687,12 @@ def swValid (o : Options) (r : Route) : Option Bool :=
 
 def isApp (o : Options) : Bool := o.auth == some "app"
 
-def validRoutes (o : Options) (ns : Namespace) : Except String (List Route) :=
-  ns.routes.filterMapM fun r =>
-    match swValid o r with
-    | none => throw s!"TypeError: argument of type 'NoneType' is not iterable (route {ns.name}.{r.name} has no auth)"
-    | some true => pure (some r)
-    | some false => pure none
+def validRoutes (o : Options) (ns : Namespace) : List Route := ns.routes.filter fun r => swValid o r == some true
+
+/-- some route carries no `auth` attribute: `'app' in None` / `None.split(',')` raise -/
+def authMissing (api : Api) : Option String :=
+  (api.nss.flatMap fun ns => ns.routes.filterMap fun r =>
+    if r.auth.isNone then some s!"route {ns.name}.{r.name} has no auth attribute" else none).head?
 
 /-- the argument list of a route function (`_get_route_args`, Swift flavour): type references only -/
 def swRouteArgRefs (api : Api) (ns : String) (r : Route) : List TRef :=
@@ -708,56 +704,51 @@ def swRouteArgRefs (api : Api) (ns : String) (r : Route) : List TRef :=
     | none => (swType r.arg).refs
   | t => if t.isVoid then [] else (swType t).refs
 
-def swClientNsDecls (api : Api) (o : Options) (ns : Namespace) : Except String (List Decl) := do
-  if ns.routes.isEmpty then return []
-  let valid ← validRoutes o ns
-  if valid.isEmpty then return []
+def argIsStruct (api : Api) (t : Ty) : Bool :=
+  match t with
+  | .user q => match api.find? q with
+    | some (.struct _) => true
+    | _ => false
+  | _ => false
+
+def swClientFuncs (api : Api) (o : Options) (ns : Namespace) : List Decl :=
   let RC := swRoutesClassName ns.name (isApp o)
-  let funcs : List Decl := valid.flatMap fun r =>
+  (validRoutes o ns).flatMap fun r =>
     (o.variants r.style).map fun _ =>
       { unit := "", kind := "func", scope := [RC], name := swFunc r.name r.version,
         refs := swRouteArgRefs api ns.name r ++ (swSerialType r.result).refs ++ (swSerialType r.error).refs ++
-          [TRef.swRoute ns.name r.name r.version] ++
-          (match r.arg with
-           | .user q => match api.find? q with
-             | some (.struct _) => (swType r.arg).refs
-             | _ => []
-           | _ => []) }
-  pure ({ unit := "", kind := "class", scope := [], name := RC, refs := funcs.flatMap (·.refs) } :: funcs)
+          [TRef.swRoute ns.name r.name r.version] ++ (if argIsStruct api r.arg then (swType r.arg).refs else []) }
 
-def bgRoutes (o : Options) (api : Api) : Except String (List (Namespace × Route)) := do
-  let mut out := []
-  for ns in api.nss do
-    let valid ← validRoutes o ns
-    out := out ++ (valid.filter fun r => o.isBackground r.style).map fun r => (ns, r)
-  pure out
+def swClientNsDecls (api : Api) (o : Options) (ns : Namespace) : List Decl :=
+  if (validRoutes o ns).isEmpty then [] else
+  let funcs := swClientFuncs api o ns
+  { unit := "", kind := "class", scope := [], name := swRoutesClassName ns.name (isApp o),
+    refs := funcs.flatMap (·.refs) } :: funcs
 
-def swClientCommon (api : Api) (o : Options) (objc : Bool) : Except String (List Decl) := do
-  let mut members : List Decl := []
+/-- routes with a style that has client arguments ("background compatible") -/
+def bgRoutes (o : Options) (api : Api) : List (Namespace × Route) :=
+  api.nss.flatMap fun ns => ((validRoutes o ns).filter fun r => o.isBackground r.style).map fun r => (ns, r)
+
+def swClientCommon (api : Api) (o : Options) (objc : Bool) : List Decl :=
   let C := (if objc then "DBX" else "") ++ o.className
-  for ns in api.nss do
-    let valid ← validRoutes o ns
-    if !valid.isEmpty then
-      let r := if objc then TRef.swRoutesObjc ns.name (isApp o) else TRef.swRoutes ns.name (isApp o)
-      members := members ++ [{ unit := "", kind := "var", scope := [C], name := swVar ns.name, refs := [r] }]
-  pure ({ unit := "", kind := "class", scope := [], name := C, refs := members.flatMap (·.refs) } :: members)
+  let members : List Decl := (api.nss.filter fun ns => !(validRoutes o ns).isEmpty).map fun ns =>
+    { unit := "", kind := "var", scope := [C], name := swVar ns.name,
+      refs := [if objc then TRef.swRoutesObjc ns.name (isApp o) else TRef.swRoutes ns.name (isApp o)] }
+  { unit := "", kind := "class", scope := [], name := C, refs := members.flatMap (·.refs) } :: members
 
-def swiftClientDecls (api : Api) (o : Options) : Except String (List Decl) := do
-  let mut out := []
-  for ns in api.nss do
-    out := out ++ (← swClientNsDecls api o ns)
-  out := out ++ (← swClientCommon api o false)
-  let bg ← bgRoutes o api
-  if !bg.isEmpty then
-    let B := o.className ++ "RequestBox"
-    let cases : List Decl := bg.map fun (ns, r) =>
-      { unit := "", kind := "case", scope := [B], name := ns.name ++ "_" ++ swFunc r.name r.version,
-        refs := (swSerialType r.result).refs ++ (swSerialType r.error).refs }
-    out := out ++ [{ unit := "", kind := "enum", scope := [], name := B, refs := cases.flatMap (·.refs) }] ++ cases
-    out := out ++ [{ unit := "", kind := "enum", scope := [],
-                     name := (if isApp o then "AppAuth" else "") ++ "ReconnectionHelpers",
-                     refs := bg.map fun (ns, r) => TRef.swRoute ns.name r.name r.version }]
-  pure out
+def swRequestBox (api : Api) (o : Options) : List Decl :=
+  let bg := bgRoutes o api
+  if bg.isEmpty then [] else
+  let B := o.className ++ "RequestBox"
+  let cases : List Decl := bg.map fun (ns, r) =>
+    { unit := "", kind := "case", scope := [B], name := ns.name ++ "_" ++ swFunc r.name r.version,
+      refs := (swSerialType r.result).refs ++ (swSerialType r.error).refs }
+  [{ unit := "", kind := "enum", scope := [], name := B, refs := cases.flatMap (·.refs) }] ++ cases ++
+  [{ unit := "", kind := "enum", scope := [], name := (if isApp o then "AppAuth" else "") ++ "ReconnectionHelpers",
+     refs := bg.map fun (ns, r) => TRef.swRoute ns.name r.name r.version }]
+
+def swiftClientDecls (api : Api) (o : Options) : List Decl :=
+  (api.nss.flatMap (swClientNsDecls api o)) ++ swClientCommon api o false ++ swRequestBox api o
 
 /-! ### swift_client --objc -/
 
@@ -786,53 +777,59 @@ def swObjcRouteArgRefs (api : Api) (r : Route) (includeDefaults : Bool) : List T
     | _ => (swObjcType r.arg).refs
   | t => if t.isVoid then [] else (swObjcType t).refs
 
-/-- `_route_objc_result_type` + the body of the request wrapper class -/
-def swReqClassRefs (r : Route) : Except String (List TRef) := do
-  let err ← match r.error with
-    | .user q => pure [TRef.swWrap q]
-    | t => if t.isVoid then pure [] else
-      throw s!"AttributeError: '{t.cls}' object has no attribute 'namespace' (error type of route {r.name})"
-  let res := if r.result.isVoid then [] else (swObjcType r.result).refs
-  pure ((swSerialType r.result).refs ++ (swSerialType r.error).refs ++ err ++ res)
+/-- `_route_objc_result_type` raises for an error type that is neither Void nor user-defined -/
+def badErrorType (r : Route) : Bool := !(r.error.isUser || r.error.isVoid)
 
-def swClientObjcNsDecls (api : Api) (o : Options) (ns : Namespace) : Except String (List Decl) := do
-  if ns.routes.isEmpty then return []
-  let valid ← validRoutes o ns
-  if valid.isEmpty then return []
-  let app := isApp o
-  let RC := "DBX" ++ swRoutesClassName ns.name app
-  let funcs : List Decl := (valid.filter (! ·.deprecated)).flatMap fun r =>
+/-- `_route_objc_result_type` + the body of the request wrapper class -/
+def swReqClassRefs (r : Route) : List TRef :=
+  (swSerialType r.result).refs ++ (swSerialType r.error).refs ++
+  (match r.error with
+   | .user q => [TRef.swWrap q]
+   | _ => []) ++
+  (if r.result.isVoid then [] else (swObjcType r.result).refs)
+
+/-- is the request wrapper of `r` written by this run? (valid for the auth type and not "already defined by the user
+auth client") -/
+def reqShown (o : Options) (r : Route) : Bool :=
+  swValid o r == some true && !(isApp o && r.auth != some "app")
+
+/-- keep the LAST entry of every name (`objc_class_to_route[objc_class] = ...` in a loop) -/
+def dedupLast : List (String × Decl) → List (String × Decl)
+  | [] => []
+  | p :: rest => if rest.any (·.1 == p.1) then dedupLast rest else p :: dedupLast rest
+
+def swReqDecls (o : Options) (ns : Namespace) : List Decl :=
+  let all : List (String × Route) := ns.routes.flatMap fun r =>
+    (o.variants r.style).map fun v => ((TRef.swReq ns.name r.name r.version (o.request r v)).text, r)
+  ((dedupLast (all.map fun (n, r) => (n, { unit := "", kind := if reqShown o r then "class" else "hidden",
+                                            scope := [], name := n, refs := swReqClassRefs r : Decl }))).map (·.2)).filter
+    (·.kind != "hidden")
+
+def swClientObjcFuncs (api : Api) (o : Options) (ns : Namespace) : List Decl :=
+  let RC := "DBX" ++ swRoutesClassName ns.name (isApp o)
+  ((validRoutes o ns).filter (! ·.deprecated)).flatMap fun r =>
     (o.variants r.style).flatMap fun v =>
       let req := TRef.swReq ns.name r.name r.version (o.request r v)
       let mk (inc : Bool) : Decl :=
         { unit := "", kind := "func", scope := [RC], name := swFunc r.name r.version ++ objcFuncSuffix v,
           refs := swObjcRouteArgRefs api r inc ++ [req] }
       if structHasDefaults api r.arg then [mk true, mk false] else [mk true]
-  -- `_routes_for_objc_requests`: keyed by class name, the last (route, variant) wins
-  let mut reqs : List (String × Decl) := []
-  for r in ns.routes do
-    for v in o.variants r.style do
-      let ref := TRef.swReq ns.name r.name r.version (o.request r v)
-      let d : Decl := { unit := "", kind := "class", scope := [], name := ref.text, refs := [] }
-      let shown := (swValid o r == some true) && !(app && r.auth != some "app")
-      if swValid o r == none then throw s!"TypeError: argument of type 'NoneType' is not iterable (route {r.name})"
-      let d ← if shown then do pure { d with refs := ← swReqClassRefs r } else pure { d with kind := "hidden" }
-      reqs := (reqs.filter (·.1 != ref.text)) ++ [(ref.text, d)]
-  let reqDecls := (reqs.map (·.2)).filter (·.kind != "hidden")
-  pure ({ unit := "", kind := "class", scope := [], name := RC,
-          refs := TRef.swRoutes ns.name app :: funcs.flatMap (·.refs) } :: funcs ++ reqDecls)
 
-def swiftClientObjcDecls (api : Api) (o : Options) : Except String (List Decl) := do
-  let mut out := []
-  for ns in api.nss do
-    out := out ++ (← swClientObjcNsDecls api o ns)
-  out := out ++ (← swClientCommon api o true)
-  let bg ← bgRoutes o api
-  if !bg.isEmpty then
-    out := out ++ [{ unit := "", kind := "extension", scope := [], name := o.className ++ "RequestBox",
-                     refs := bg.map fun (ns, r) =>
-                       TRef.swReq ns.name r.name r.version (o.request r ((o.variants r.style).head?.getD none)) }]
-  pure out
+def swClientObjcNsDecls (api : Api) (o : Options) (ns : Namespace) : List Decl :=
+  if (validRoutes o ns).isEmpty then [] else
+  let funcs := swClientObjcFuncs api o ns
+  { unit := "", kind := "class", scope := [], name := "DBX" ++ swRoutesClassName ns.name (isApp o),
+    refs := TRef.swRoutes ns.name (isApp o) :: funcs.flatMap (·.refs) } :: funcs ++ swReqDecls o ns
+
+def swRequestBoxObjc (api : Api) (o : Options) : List Decl :=
+  let bg := bgRoutes o api
+  if bg.isEmpty then [] else
+  [{ unit := "", kind := "extension", scope := [], name := o.className ++ "RequestBox",
+     refs := bg.map fun (ns, r) =>
+       TRef.swReq ns.name r.name r.version (o.request r ((o.variants r.style).head?.getD none)) }]
+
+def swiftClientObjcDecls (api : Api) (o : Options) : List Decl :=
+  (api.nss.flatMap (swClientObjcNsDecls api o)) ++ swClientCommon api o true ++ swRequestBoxObjc api o
 
 /-! ### obj_c_types -/
 
@@ -919,11 +916,8 @@ def ocRouteObjDecls (ns : Namespace) : List Decl :=
       { unit := "m", kind := "static_var", scope := [C], name := V },
       { unit := "m", kind := "method", scope := [C], name := V, refs := ocRouteObjRefs r } ]
 
-def objcTypesDecls (api : Api) : Except String (List Decl) := do
-  for ns in api.nss do
-    for r in ns.routes do
-      if r.auth.isNone then throw s!"AttributeError: 'NoneType' object has no attribute 'split' (route {r.name})"
-  pure <| api.nss.flatMap fun ns =>
+def objcTypesDecls (api : Api) : List Decl :=
+  api.nss.flatMap fun ns =>
     (ns.types.flatMap fun t => match t with
       | .struct s => ocStructDecls api ns.name s
       | .union u => ocUnionDecls api ns.name u) ++ ocRouteObjDecls ns
@@ -931,12 +925,12 @@ def objcTypesDecls (api : Api) : Except String (List Decl) := do
 /-! ### obj_c_client -/
 
 /-- `_should_generate_route` -/
-def ocShould (auth : String) (r : Route) : Option Bool :=
+def ocShould (auth : String) (r : Route) : Bool :=
   match r.auth with
-  | none => none
+  | none => false
   | some a =>
     let parts := (a.splitOn ",").map fun p => p.trimAscii.toString
-    some (parts.contains auth || (parts.contains "noauth" && auth == "user"))
+    parts.contains auth || (parts.contains "noauth" && auth == "user")
 
 /-- (label, type) pairs of `_get_route_args` / `_get_default_route_args` -/
 def ocRouteArgs (api : Api) (r : Route) (dflt : Bool) : List (String × TExpr) :=
@@ -958,15 +952,9 @@ def ocSelector (name : String) (labels : List String) : String :=
 def ocRouteFunc (r : Route) : String :=
   if r.version != 1 then ocVar r.name ++ "V" ++ toString r.version else ocVar r.name
 
-def ocClientNsDecls (api : Api) (o : Options) (auth : String) (ns : Namespace) : Except String (List Decl) := do
-  let gen ← ns.routes.filterMapM fun r =>
-    match ocShould auth r with
-    | none => throw s!"AttributeError: 'NoneType' object has no attribute 'split' (route {r.name})"
-    | some true => pure (some r)
-    | some false => pure none
-  if gen.isEmpty then return []
+def ocClientMethods (api : Api) (o : Options) (auth : String) (ns : Namespace) : List Decl :=
   let C := ocRoutesClass ns.name auth
-  let methods : List Decl := gen.flatMap fun r =>
+  (ns.routes.filter (ocShould auth)).flatMap fun r =>
     (o.variants r.style).flatMap fun v =>
       let suffix := (v.map (·.suffix)).getD ""
       let extra := (v.map (·.extra)).getD []
@@ -979,24 +967,25 @@ def ocClientNsDecls (api : Api) (o : Options) (auth : String) (ns : Namespace) :
           refs := retRefs ++ args.flatMap (·.2.refs) }
       -- the convenience variant is emitted first, for struct arguments (not unwrapped) with optional fields
       if r.arg.isUser && structHasDefaults api r.arg then [mk true, mk false] else [mk false]
-  pure ([ { unit := "h", kind := "interface", scope := [], name := C, refs := methods.flatMap (·.refs) },
-          { unit := "h", kind := "property", scope := [C], name := "client" },
-          { unit := "h", kind := "method", scope := [C], name := "init:" },
-          { unit := "m", kind := "implementation", scope := [], name := C } ] ++ methods)
 
-def objcClientDecls (api : Api) (o : Options) : Except String (List Decl) := do
+def ocClientNsDecls (api : Api) (o : Options) (auth : String) (ns : Namespace) : List Decl :=
+  if (ns.routes.filter (ocShould auth)).isEmpty then [] else
+  let C := ocRoutesClass ns.name auth
+  let methods := ocClientMethods api o auth ns
+  [ { unit := "h", kind := "interface", scope := [], name := C, refs := methods.flatMap (·.refs) },
+    { unit := "h", kind := "property", scope := [C], name := "client" },
+    { unit := "h", kind := "method", scope := [C], name := "init:" },
+    { unit := "m", kind := "implementation", scope := [], name := C } ] ++ methods
+
+def objcClientDecls (api : Api) (o : Options) : List Decl :=
   let auth := o.auth.getD "None"
-  let mut out := []
-  let mut props : List Decl := []
-  for ns in api.nss do
-    let ds ← ocClientNsDecls api o auth ns
-    out := out ++ ds
-    if !ds.isEmpty then
-      props := props ++ [{ unit := "h", kind := "property", scope := [o.className], name := ocVar ns.name ++ "Routes",
-                           refs := [TRef.ocRoutes ns.name auth] }]
-  pure (out ++ [{ unit := "h", kind := "interface", scope := [], name := o.className, refs := props.flatMap (·.refs) }] ++
-        props ++ [{ unit := "h", kind := "method", scope := [o.className], name := "initWithTransportClient:" },
-                  { unit := "m", kind := "implementation", scope := [], name := o.className }])
+  let props : List Decl := (api.nss.filter fun ns => !(ns.routes.filter (ocShould auth)).isEmpty).map fun ns =>
+    { unit := "h", kind := "property", scope := [o.className], name := ocVar ns.name ++ "Routes",
+      refs := [TRef.ocRoutes ns.name auth] }
+  api.nss.flatMap (ocClientNsDecls api o auth) ++
+  [{ unit := "h", kind := "interface", scope := [], name := o.className, refs := props.flatMap (·.refs) }] ++
+  props ++ [{ unit := "h", kind := "method", scope := [o.className], name := "initWithTransportClient:" },
+            { unit := "m", kind := "implementation", scope := [], name := o.className }]
 
 /-! ## The six backends -/
 
@@ -1004,13 +993,131 @@ inductive Backend where
   | swiftTypes | swiftTypesObjc | swiftClient | swiftClientObjc | objcTypes | objcClient
   deriving DecidableEq, Repr, Inhabited
 
-def decls (b : Backend) (api : Api) (o : Options) : Except String (List Decl) :=
+/-- what the invocation declares when it completes -/
+def declsOf (b : Backend) (api : Api) (o : Options) : List Decl :=
   match b with
-  | .swiftTypes => pure (swiftTypesDecls api)
+  | .swiftTypes => swiftTypesDecls api
   | .swiftTypesObjc => swiftTypesObjcDecls api
   | .swiftClient => swiftClientDecls api o
   | .swiftClientObjc => swiftClientObjcDecls api o
   | .objcTypes => objcTypesDecls api
   | .objcClient => objcClientDecls api o
+
+/-- the inputs on which the invocation is known to stop with an exception (explicit error result) -/
+def crash (b : Backend) (api : Api) (o : Options) : Option String :=
+  match b with
+  | .swiftTypes => none
+  | .swiftTypesObjc =>
+    (api.allTypes.filterMap fun (ns, t) => match t with
+      | .struct s => (s.fields.find? (d18Field api)).map fun f =>
+          s!"UndefinedError: 'Map object' has no attribute 'data_type' (field {f.name} of {ns}.{s.name})"
+      | .union _ => none).head?
+  | .swiftClient => (authMissing api).map ("TypeError: argument of type 'NoneType' is not iterable: " ++ ·)
+  | .swiftClientObjc =>
+    match authMissing api with
+    | some e => some ("TypeError: argument of type 'NoneType' is not iterable: " ++ e)
+    | none =>
+      (api.nss.flatMap fun ns => (ns.routes.filter fun r => reqShown o r && badErrorType r).map fun r =>
+        s!"AttributeError: error type of route {ns.name}.{r.name} has no attribute 'namespace'").head?
+  | .objcTypes => (authMissing api).map ("AttributeError: 'NoneType' object has no attribute 'split': " ++ ·)
+  | .objcClient => (authMissing api).map ("AttributeError: 'NoneType' object has no attribute 'split': " ++ ·)
+
+def decls (b : Backend) (api : Api) (o : Options) : Except String (List Decl) :=
+  match crash b api o with
+  | some e => .error e
+  | none => .ok (declsOf b api o)
+
+/-! ## Specification level (written from the property text, not following the generators) -/
+
+/-- a declared name: file unit, enclosing scope, name (a name is declared once, whatever its kind) -/
+abbrev NKey := String × List String × String
+
+def Decl.nkey (d : Decl) : NKey := (d.unit, d.scope, d.name)
+
+/-- the declaration a user-type reference denotes under the naming scheme -/
+def TRef.target? : TRef → Option NKey
+  | .swType q => some ("", [swClass q.ns], swClass q.name)
+  | .swSer q => some ("", [swClass q.ns], swClass q.name ++ "Serializer")
+  | .swWrap q => some ("", [], "DBX" ++ swClass q.ns ++ swClass q.name)
+  | .ocClass q => some ("h", [], ocClassPrefix q)
+  | .ocSer q => some ("h", [], ocClassPrefix q ++ "Serializer")
+  | _ => none
+
+/-- user types an IR type definition mentions: itself, its parent, its field types, tag defaults, enumerated subtypes -/
+def typeMentions (ns : String) (t : UserT) : List QName :=
+  [⟨ns, t.name⟩] ++ t.parent.toList ++ t.fields.flatMap (·.ty.userTypes) ++
+  (t.fields.filterMap fun f => f.dfltTag.map (·.1)) ++
+  (match t with
+   | .struct s => (s.subtypes.getD []).map (·.2)
+   | .union _ => [])
+
+/-- user types a route mentions; a union argument is printed with the ROUTE's namespace by `swift_client` -/
+def routeMentions (api : Api) (ns : String) (r : Route) : List QName :=
+  r.arg.userTypes ++ r.result.userTypes ++ r.error.userTypes ++
+  (match r.arg with
+   | .user q => match api.find? q with
+     | some (.union u) => [⟨ns, u.name⟩]
+     | _ => []
+   | _ => [])
+
+def mentioned (api : Api) : List QName :=
+  api.nss.flatMap fun ns => ns.types.flatMap (typeMentions ns.name) ++ ns.routes.flatMap (routeMentions api ns.name)
+
+/-- the closure invariant of an accepted specification (C02): every user type that is mentioned is registered in its
+namespace. Decidable; evaluated by the driver on every API description of the suite. -/
+def ApiWF (api : Api) : Prop := ∀ q ∈ mentioned api, (api.find? q).isSome = true
+
+instance (api : Api) : Decidable (ApiWF api) := by unfold ApiWF; exact inferInstance
+
+/-- the Swift outputs in which Swift type names are declared, and the Objective-C ones -/
+def swiftUniverse (api : Api) : List Decl := swiftTypesDecls api ++ swiftTypesObjcDecls api
+def objcUniverse (api : Api) : List Decl := objcTypesDecls api
+
+def declUniverse (b : Backend) (api : Api) : List Decl :=
+  match b with
+  | .objcTypes | .objcClient => objcUniverse api
+  | _ => swiftUniverse api
+
+/-- no two declarations of the output share unit, kind, scope and name: the naming scheme of the backend is injective
+on the names of this API (decidable; `false` e.g. for two fields `foo_bar` / `fooBar` of one struct) -/
+def nameInjective (b : Backend) (api : Api) (o : Options) : Prop := ((declsOf b api o).map Decl.key).Nodup
+
+instance (b : Backend) (api : Api) (o : Options) : Decidable (nameInjective b api o) := by
+  unfold nameInjective; exact inferInstance
+
+/-- the declarations the property asks for, per IR item (namespace, struct, union, field, tag, serializer, route),
+for the two type backends of each language -/
+def itemKeys (b : Backend) (api : Api) : List (String × String × List String × String) :=
+  match b with
+  | .swiftTypes => api.nss.flatMap fun ns =>
+      let N := swClass ns.name
+      [("", "class", [], N)] ++
+      (ns.types.flatMap fun t =>
+        let T := swClass t.name
+        [("", if t.isUnion then "enum" else "class", [N], T), ("", "class", [N], T ++ "Serializer")] ++
+        (match t with
+         | .struct s => s.fields.map fun f => ("", "let", [N, T], swVar f.name)
+         | .union u => (unionAllFields api ns.name u).map fun f => ("", "case", [N, T], swVar f.name))) ++
+      ns.routes.map fun r => ("", "static_let", [N], swFunc r.name r.version)
+  | .swiftTypesObjc => api.nss.flatMap fun ns => ns.types.flatMap fun t =>
+      let C := (TRef.swWrap ⟨ns.name, t.name⟩).text
+      [("", "class", [], C)] ++
+      (match t with
+       | .struct s => s.fields.map fun f => ("", "var", [C], swVar f.name)
+       | .union u => (unionAllFields api ns.name u).map fun f => ("", "class", [], (TRef.swTag ⟨ns.name, t.name⟩ f.name).text))
+  | .objcTypes => api.nss.flatMap fun ns =>
+      (ns.types.flatMap fun t =>
+        let q : QName := ⟨ns.name, t.name⟩
+        let C := ocClassPrefix q
+        [("h", "interface", [], C), ("m", "implementation", [], C), ("h", "interface", [], C ++ "Serializer"),
+         ("m", "implementation", [], C ++ "Serializer")] ++
+        (match t with
+         | .struct s => s.fields.map fun f => ("h", "property", [C], ocVar f.name)
+         | .union u => (unionAllFields api ns.name u).map fun f =>
+             ("h", "enum_const", [C, (TRef.ocTagEnum q).text], (TRef.ocTagConst q f.name).text))) ++
+      ns.routes.flatMap fun r =>
+        [("h", "method", [ocRouteObjClass ns.name], ocRouteVarName ns.name r.name r.version),
+         ("m", "static_var", [ocRouteObjClass ns.name], ocRouteVarName ns.name r.name r.version)]
+  | _ => []
 
 end StoneVerif.DeclSwift
